@@ -1,8 +1,9 @@
 """
 Tier-A extractor for the per-element arithmetic / decision logic of the ISIMIP steps (`ibicus/debias/_isimip.py`)
 that are not straight-line kernels: `_step5_transfer_trend`, `_step3_remove_trend`, `step7`, the step-6 bound masks,
-`_step4_randomize_values_between_*`, `_step2_get_mask_for_values_to_impute`, `_step1_scale_…` / `_step8_rescale_…`,
-the equal-calendar branch of `_step1_calculate_debiased_annual_cycle_of_upper_bounds`.
+`_step4_randomize_values_between_*`, `_step2_get_mask_for_values_to_impute`, and (part 2) `_step1_scale_…` / `_step8_rescale_…`,
+both branches of `_step1_calculate_debiased_annual_cycle_of_upper_bounds`, `_step1_get_annual_cycle_of_upper_bounds`, and the
+wiring of `step1` / `step8`.  Not covered: `_step2_impute_values`.
 
 Two readings, both strict (anything outside the stated shapes raises `Untranslatable` — never guessed):
 
@@ -23,10 +24,25 @@ Two readings, both strict (anything outside the stated shapes raises `Untranslat
   selected one to the zipped arrays.  Arrays of another shape class are not in scope of the element-wise part.
 * **list-level reading** (`ListFn` = py2lean's `Fn` with `column`-style list semantics plus the additions below,
   functions declared `kind="list"`): `x = np.zeros_like(y[, dtype=bool])`, `x[lo:hi] = c` (Python slice semantics,
-  `PyElem.setSlice`), `x[m] = <array>` (`Model.IsimipFreq.fillWhere`), `x[idx - 1]` (`PyElem.takeIdx1`),
-  `x[days == d][0]` (`PyElem.firstWhere`, `IndexError` when absent), `A if c else B`, tuple-unpacking of an extern
+  `PyElem.setSlice`), `x[m] = <array>` (`Model.IsimipFreq.fillWhere`), tuple-unpacking of an extern
   call, attributes of an extern object (`regression.slope`), `for k, v in enumerate(xs): t[ys == v] = a[k]`
   (`PyElem.assignByKey`), `np.zeros(n, dtype=…)`, `X - np.mean(X)`.
+  Part 2 (steps 1 / 8, functions declared `partial=True`: the definition is a `do` block in `Except String`):
+    - `x[i]` with an integer `i` → `PyElem.getIdx` (negative index from the end, `IndexError` out of range); `x[idx]` with an
+      integer array → `PyElem.takeIdx` / `PyElem.takeNat` (so `scaling[days - 1]` and `arr[days == d][0]` are compositions
+      of `getIdx` / `takeIdx` with `Py.selectWhere`, not special forms);
+    - `A if c else B` and `[E for v in xs]` / `np.array([...])` whose parts may raise → each branch its own `do` block,
+      the comprehension a `mapM`;
+    - `np.where(m, a, b)` on arrays (`PyElem.npWhere`, a scalar operand broadcast as `m.map (fun _ => s)`),
+      `np.maximum/np.minimum` with one array operand, `np.array_equal`, `x.copy()` (values only), `np.unique(x)`,
+      `u, idx = np.unique(x, return_index=True)` (`PyElem.uniqueIndex`), `np.maximum.reduceat` (`PyElem.reduceatMax`),
+      `x.argsort()` (the declared symbol `np_argsort`), extern calls with required keyword literals (`mode="wrap"`);
+    - `for k, v in enumerate(keys): <assignments / ifs>; out[k] = E` where the body neither reads `out` nor leaks a local
+      → `PyElem.enumAssign out keys (fun k v => do …)` (`none` = nothing written in that iteration);
+    - `x = None` for a declared optional local, tuple returns coerced per component (`T` into `Option T`);
+    - calls of other generated definitions that may raise (`extern … partial=True`) are binds;
+    - `total_div`: `/` is Lean's total division — numpy's array division never raises, and the quotient at a zero divisor
+      has to be discarded by the code (`np.where`, a guard) for the `Gen = Model` theorem to hold (the model has the guard).
 
 What is NOT identity (ignored by the extractor): comments, docstrings, the verification hook
 `_verif_mark_unassigned(<name>)` (named in `ignore_calls`), the names of local variables (definitions are applied
@@ -452,11 +468,149 @@ class ListFn(PreludeFn):
             s, t = self.expr(e.value, env, pre)
             if is_list(t):
                 return f"(({s}).length : Int)", INT
+        if isinstance(e, ast.IfExp) and self.wrap:
+            # `A if c else B` whose branches may raise (fancy indexing, `[…][0]`): each branch is its own `do` block
+            c, tc = self.expr(e.test, env, pre)
+            a, ta, pa = self.branch_do(e.body, env)
+            b, tb, pb = self.branch_do(e.orelse, env)
+            if pa or pb:
+                if ta != tb:
+                    raise Untranslatable(f"conditional expression of {ta} / {tb}")
+                nm = self.fresh("t")
+                pre.append((nm, f"(if {self.coerce(c, tc, PROP)} then {a} else {b})", ta, "bind"))
+                return nm, ta
+            return super().expr(e, env, pre)
+        if isinstance(e, ast.ListComp) and self.wrap:
+            # `[E for v in xs]` where `E` may raise -> `xs.mapM (fun v => do …)`
+            if len(e.generators) != 1 or e.generators[0].ifs or e.generators[0].is_async:
+                raise Untranslatable("list comprehension shape")
+            g = e.generators[0]
+            it, tit = self.expr(g.iter, env, pre)
+            if not is_list(tit) or not isinstance(g.target, ast.Name):
+                raise Untranslatable("list comprehension iterable")
+            env2 = dict(env)
+            env2[g.target.id] = elem(tit)
+            body, tb, partial = self.branch_do(e.elt, env2)
+            if not partial:
+                return super().expr(e, env, pre)
+            nm = self.fresh("t")
+            pre.append((nm, f"(({it}).mapM (fun {g.target.id} => {body}))", LIST(tb), "bind"))
+            return nm, LIST(tb)
         return super().expr(e, env, pre)
+
+    def branch_do(self, e, env):
+        """an expression that may raise, as a term of type `Except String T`: returns (term, T, did it need binds)"""
+        pre2 = []
+        s, t = self.expr(e, dict(env), pre2)
+        s, t = self.val(s, t), self.valt(t)
+        if not pre2:
+            return f"(Except.ok {s})", t, False
+        lets = "; ".join((f"let {p[0]} ← {p[1]}" if len(p) == 4 else f"let {p[0]} : {self.tstr(p[2])} := {p[1]}") for p in pre2)
+        return f"(do {lets}; Except.ok {s})", t, any(len(p) == 4 for p in pre2)
+
+    def binop(self, op, a, ta, b, tb, pre=None):
+        # numpy's array division never raises (inf / nan + RuntimeWarning); the quotient at a zero divisor must be
+        # discarded by the code (np.where / a guard) for the `Gen = Model` theorem to hold — the model has the guard
+        if isinstance(op, ast.Div) and self.spec.get("total_div") and not is_list(ta) and not is_list(tb):
+            return f"({self.coerce(a, ta, RAT)} / {self.coerce(b, tb, RAT)})", RAT
+        return super().binop(op, a, ta, b, tb, pre)
+
+    def subscript(self, e, env, pre):
+        if self.wrap and not isinstance(e.slice, ast.Slice) and not (
+                isinstance(e.value, ast.Call) and ast.unparse(e.value.func) == "np.where"):
+            v, tv = self.expr(e.value, env, pre)
+            i, ti = self.expr(e.slice, env, pre)
+            if is_list(tv) and ti in (INT, LI, LIST("Nat")):
+                fn = {INT: "PyElem.getIdx", LI: "PyElem.takeIdx"}.get(ti, "PyElem.takeNat")
+                nm = self.fresh("t")
+                rt = elem(tv) if ti == INT else tv
+                pre.append((nm, f"{fn} {v} {i}", rt, "bind"))
+                return nm, rt
+            if is_list(tv) and ti == LB:
+                return f"(Py.selectWhere {v} {i})", tv
+            raise Untranslatable(f"subscript {ast.unparse(e)}")
+        return super().subscript(e, env, pre)
+
+    def broadcast(self, s, t, like):
+        """a scalar operand of a list-level numpy call, broadcast to the shape of the list `like`"""
+        if is_list(t):
+            return s, t
+        if t == INT:
+            s, t = self.coerce(s, INT, RAT), RAT
+        return f"(({like}).map (fun _ => {s}))", LIST(t)
 
     def call(self, e, env, pre):
         f = ast.unparse(e.func)
         kws = [(k.arg, ast.unparse(k.value)) for k in e.keywords]
+        if f == "np.where" and len(e.args) == 3 and not kws:
+            m, tm = self.expr(e.args[0], env, pre)
+            if tm != LB:
+                raise Untranslatable("np.where: the condition is not a mask")
+            a, ta = self.expr(e.args[1], env, pre)
+            b, tb = self.expr(e.args[2], env, pre)
+            a, ta = self.broadcast(a, ta, m)
+            b, tb = self.broadcast(b, tb, m)
+            if ta == LI and tb == LR:
+                a, ta = self.coerce(a, LI, LR), LR
+            if tb == LI and ta == LR:
+                b, tb = self.coerce(b, LI, LR), LR
+            if ta != tb:
+                raise Untranslatable(f"np.where of {ta} / {tb}")
+            return f"(PyElem.npWhere {m} {a} {b})", ta
+        if f in ("np.maximum", "np.minimum") and len(e.args) == 2 and not kws:
+            a, ta = self.expr(e.args[0], env, pre)
+            b, tb = self.expr(e.args[1], env, pre)
+            if is_list(ta) or is_list(tb):
+                o = "max" if f == "np.maximum" else "min"
+                if is_list(ta) and is_list(tb):
+                    if ta != tb:
+                        raise Untranslatable(f"{f} of {ta} / {tb}")
+                    x, y = self.fresh("x"), self.fresh("y")
+                    return f"(List.zipWith (fun {x} {y} => {o} {x} {y}) ({a}) ({b}))", ta
+                x = self.fresh("x")
+                if is_list(ta):
+                    sa, sb, tl, ts, lst = x, b, elem(ta), tb, a
+                else:
+                    sa, sb, tl, ts, lst = a, x, elem(tb), ta, b
+                if tl == RAT and ts == INT:
+                    if is_list(ta):
+                        sb = self.coerce(sb, INT, RAT)
+                    else:
+                        sa = self.coerce(sa, INT, RAT)
+                elif tl != ts:
+                    raise Untranslatable(f"{f} of {ta} / {tb}")
+                return f"(({lst}).map (fun {x} => {o} {sa} {sb}))", LIST(tl)
+        if f == "np.array_equal" and len(e.args) == 2 and not kws:
+            a, ta = self.expr(e.args[0], env, pre)
+            b, tb = self.expr(e.args[1], env, pre)
+            if ta != tb or not is_list(ta):
+                raise Untranslatable(f"np.array_equal of {ta} / {tb}")
+            return f"({a} = {b})", PROP
+        if f == "np.unique" and len(e.args) == 1 and not kws:
+            s, t = self.expr(e.args[0], env, pre)
+            if t != LI:
+                raise Untranslatable("np.unique on " + str(t))
+            return f"(PyElem.uniqueIndex {s}).1", LI
+        if isinstance(e.func, ast.Attribute) and e.func.attr == "copy" and not e.args and not kws:
+            s, t = self.expr(e.func.value, env, pre)
+            if not is_list(t):
+                raise Untranslatable(".copy() of a non-array")
+            return s, t  # values only: aliasing is not modelled
+        if f == "np.array" and len(e.args) == 1 and not kws and isinstance(e.args[0], ast.ListComp):
+            return self.expr(e.args[0], env, pre)
+        if isinstance(e.func, ast.Attribute) and e.func.attr == "argsort" and not e.args and not kws and "np_argsort" in env:
+            s, t = self.expr(e.func.value, env, pre)
+            if t != LI:
+                raise Untranslatable(".argsort() of " + str(t))
+            return f"(np_argsort {s})", LIST("Nat")
+        if f == "np.maximum.reduceat" and len(e.args) == 2 and not kws and self.wrap:
+            a, ta = self.expr(e.args[0], env, pre)
+            b, tb = self.expr(e.args[1], env, pre)
+            if ta != LR or tb != LIST("Nat"):
+                raise Untranslatable(f"np.maximum.reduceat of {ta} / {tb}")
+            nm = self.fresh("t")
+            pre.append((nm, f"PyElem.reduceatMax {a} {b}", LR, "bind"))
+            return nm, LR
         if f == "np.zeros_like" and len(e.args) == 1:
             s, t = self.expr(e.args[0], env, pre)
             if not is_list(t):
@@ -474,6 +628,93 @@ class ListFn(PreludeFn):
             return f"(List.replicate ({s}).toNat (0 : Rat))", LR
         return super().call(e, env, pre)
 
+    def extern_call(self, e, f, env, pre):
+        s, t = super().extern_call(e, f, env, pre)
+        if self.extern[f].get("partial"):
+            # the callee may raise (it is a generated definition of type `Except String _`)
+            if not self.wrap:
+                raise Untranslatable(f"call of raising function {f}")
+            nm = self.fresh("t")
+            pre.append((nm, s[1:-1] if s.startswith("(") and s.endswith(")") else s, t, "bind"))
+            return nm, t
+        return s, t
+
+    # ---- the body of `for k, v in enumerate(keys)` that writes `out[k]` only (see PyElem.enumAssign)
+    def loop_body(self, stmts, env, ind, out, index):
+        pad = " " * ind
+        if not stmts:
+            return pad + "(Except.ok none)\n"
+        st, rest = stmts[0], stmts[1:]
+        pre = []
+        if isinstance(st, ast.Assign) and len(st.targets) == 1 and isinstance(st.targets[0], ast.Name):
+            nm = st.targets[0].id
+            if nm in (out, index):
+                raise Untranslatable(f"loop body rebinds `{nm}`")
+            s, t = self.expr(st.value, env, pre)
+            s, t = self.val(s, t), self.valt(t)
+            env = dict(env)
+            env[nm] = t
+            return self.lets(pre, pad) + pad + f"let {nm} : {self.tstr(t)} := {s}\n" + self.loop_body(rest, env, ind, out, index)
+        if isinstance(st, ast.Assign) and len(st.targets) == 1 and isinstance(st.targets[0], ast.Subscript):
+            tg = st.targets[0]
+            if not (isinstance(tg.value, ast.Name) and tg.value.id == out and isinstance(tg.slice, ast.Name) and tg.slice.id == index):
+                raise Untranslatable(f"loop body writes `{ast.unparse(tg)}` (only `{out}[{index}]` is recognised)")
+            if rest:
+                raise Untranslatable(f"statements after `{ast.unparse(tg)} = …` in the loop body")
+            s, t = self.expr(st.value, env, pre)
+            if t == INT:
+                s, t = self.coerce(s, INT, RAT), RAT
+            if t != RAT:
+                raise Untranslatable(f"`{ast.unparse(tg)}` assigned a {t}")
+            return self.lets(pre, pad) + pad + f"(Except.ok (some {s}))\n"
+        if isinstance(st, ast.If):
+            c, tc = self.expr(st.test, env, pre)
+            c = self.coerce(c, tc, PROP)
+            return (self.lets(pre, pad) + pad + f"if {c} then\n" + self.loop_body(list(st.body) + rest, dict(env), ind + 2, out, index)
+                    + pad + "else\n" + self.loop_body(list(st.orelse) + rest, dict(env), ind + 2, out, index))
+        raise Untranslatable(f"loop body statement `{ast.unparse(st)[:60]}`")
+
+    def enum_assign_loop(self, st, rest, env, ind):
+        pad = " " * ind
+        ok = (isinstance(st.target, ast.Tuple) and len(st.target.elts) == 2 and all(isinstance(x, ast.Name) for x in st.target.elts)
+              and isinstance(st.iter, ast.Call) and ast.unparse(st.iter.func) == "enumerate" and len(st.iter.args) == 1
+              and not st.iter.keywords and isinstance(st.iter.args[0], ast.Name) and not st.orelse)
+        if not ok:
+            raise Untranslatable("for loop shape: " + ast.unparse(st)[:70])
+        index, key, keys = st.target.elts[0].id, st.target.elts[1].id, st.iter.args[0].id
+        outs = {n.value.id for b in st.body for n in ast.walk(b)
+                if isinstance(n, ast.Subscript) and isinstance(n.ctx, ast.Store) and isinstance(n.value, ast.Name)}
+        if len(outs) != 1:
+            raise Untranslatable(f"for loop: written arrays {sorted(outs)}")
+        out = outs.pop()
+        if env.get(keys) != LI or env.get(out) != LR or len({index, key, keys, out}) != 4:
+            raise Untranslatable("for loop: types / names")
+        for b in st.body:
+            for n in ast.walk(b):
+                if isinstance(n, ast.Name) and n.id == out and isinstance(n.ctx, ast.Load):
+                    # `out[index] = E` parses as Subscript(Store) over Name(Load): allow exactly that position
+                    pass
+        reads = [n for b in st.body for n in ast.walk(b) if isinstance(n, ast.Name) and n.id == out]
+        stores = [n for b in st.body for n in ast.walk(b)
+                  if isinstance(n, ast.Subscript) and isinstance(n.ctx, ast.Store) and isinstance(n.value, ast.Name) and n.value.id == out]
+        if len(reads) != len(stores):
+            raise Untranslatable(f"for loop: the body reads `{out}`")
+        if any(isinstance(n, (ast.Break, ast.Continue, ast.Return, ast.Raise, ast.For, ast.While, ast.AugAssign)) for b in st.body for n in ast.walk(b)):
+            raise Untranslatable("for loop: control flow in the body")
+        local = {t.id for b in st.body for n in ast.walk(b) if isinstance(n, ast.Assign) for t in n.targets if isinstance(t, ast.Name)}
+        local |= {index, key}
+        for r in rest:
+            for n in ast.walk(r):
+                if isinstance(n, ast.Name) and n.id in local:
+                    raise Untranslatable(f"`{n.id}` of the loop body used after the loop")
+        env2 = dict(env)
+        env2[index] = INT
+        env2[key] = INT
+        body = self.loop_body(list(st.body), env2, ind + 4, out, index)
+        body = body.rstrip("\n") + ")\n"
+        return (pad + f"let {out} ← PyElem.enumAssign {out} {keys} (fun ({index}_n : Nat) ({key} : Int) => do\n"
+                + " " * (ind + 4) + f"let {index} : Int := (({index}_n : Nat) : Int)\n" + body + self.block(rest, env, ind))
+
     # ---- statements
     def block(self, stmts, env, ind):
         if not stmts:
@@ -481,8 +722,47 @@ class ListFn(PreludeFn):
         st, rest = stmts[0], stmts[1:]
         pad = " " * ind
         pre = []
+        if isinstance(st, ast.Return) and isinstance(self.spec["ret"], tuple) and isinstance(st.value, ast.Tuple):
+            # tuple return with per-component coercion (`T` into `Option T`: `some`)
+            want = self.spec["ret"]
+            if len(want) != len(st.value.elts):
+                raise Untranslatable("return arity")
+            parts = []
+            for w, x in zip(want, st.value.elts):
+                s, t = self.expr(x, env, pre)
+                s, t = self.val(s, t), self.valt(t)
+                if t != w:
+                    if w == f"Option ({t})":
+                        s = f"(some {s})"
+                    else:
+                        s = self.coerce(s, t, w)
+                parts.append(s)
+            return self.lets(pre, pad) + pad + self.ret_wrap("(" + ", ".join(parts) + ")") + "\n"
+        if (isinstance(st, ast.Assign) and len(st.targets) == 1 and isinstance(st.targets[0], ast.Name)
+                and isinstance(st.value, ast.Constant) and st.value.value is None):
+            nm = st.targets[0].id
+            t = self.spec.get("option_locals", {}).get(nm)
+            if t is None:
+                raise Untranslatable(f"`{nm} = None`")
+            env = dict(env)
+            env[nm] = f"Option ({t})"
+            return pad + f"let {nm} : Option ({t}) := none\n" + self.block(rest, env, ind)
         if isinstance(st, ast.Assign) and len(st.targets) == 1:
             tg, v = st.targets[0], st.value
+            # u, idx = np.unique(x, return_index=True)
+            if (isinstance(tg, ast.Tuple) and len(tg.elts) == 2 and all(isinstance(x, ast.Name) for x in tg.elts)
+                    and isinstance(v, ast.Call) and ast.unparse(v.func) == "np.unique" and len(v.args) == 1
+                    and [(k.arg, ast.unparse(k.value)) for k in v.keywords] == [("return_index", "True")]):
+                s, t = self.expr(v.args[0], env, pre)
+                if t != LI:
+                    raise Untranslatable("np.unique on " + str(t))
+                env = dict(env)
+                a, b = tg.elts[0].id, tg.elts[1].id
+                if a == b:
+                    raise Untranslatable("np.unique targets")
+                env[a], env[b] = LI, LIST("Nat")
+                return (self.lets(pre, pad) + pad + f"let {a} : {LI} := (PyElem.uniqueIndex {s}).1\n"
+                        + pad + f"let {b} : List Nat := (PyElem.uniqueIndex {s}).2\n" + self.block(rest, env, ind))
             # x[lo:hi] = scalar  (basic slice, Python slice semantics)
             if (isinstance(tg, ast.Subscript) and isinstance(tg.value, ast.Name) and isinstance(tg.slice, ast.Slice)):
                 x, sl = tg.value.id, tg.slice
@@ -554,7 +834,7 @@ class ListFn(PreludeFn):
                       and isinstance(val, ast.Subscript) and isinstance(val.value, ast.Name) and isinstance(val.slice, ast.Name)
                       and val.slice.id == k)
             if not ok:
-                raise Untranslatable("for loop shape: " + ast.unparse(st)[:70])
+                return self.enum_assign_loop(st, rest, env, ind)
             t_, ys, a_ = tg.value.id, tg.slice.left.id, val.value.id
             if len({k, vv, keys, t_, ys, a_}) != 6:
                 raise Untranslatable("for loop: names not distinct")
@@ -641,7 +921,62 @@ STEP3 = dict(
     objects={"scipy.stats.linregress": dict(args=[LR, LR], attrs={"pvalue": ("linregress_pvalue", RAT), "slope": ("linregress_slope", RAT)})},
 )
 
-SPECS = [STEP5, STEP7, STEP2_MASK, MASK_LOWER, MASK_UPPER, step4("lower"), step4("upper"), STEP3]
+# ---- part 2: step 1 / step 8 (scaling by the annual cycle of upper bounds)
+_CYC = {"vals": LR, "days_of_year_vals": LI, "annual_cycle_of_upper_bounds": LR, "days_of_year_annual_cycle_of_upper_bounds": LI}
+STEP1_SCALE = dict(kind="list", func="_step1_scale_by_annual_cycle_of_upper_bounds", lean="scale_by_annual_cycle_of_upper_bounds",
+                   params=dict(_CYC), ret=LR, partial=True, total_div=True)
+STEP8_RESCALE = dict(kind="list", func="_step8_rescale_by_annual_cycle_of_upper_bounds", lean="rescale_by_annual_cycle_of_upper_bounds",
+                     params=dict(_CYC), ret=LR, partial=True, total_div=True)
+STEP1_DEBIASED = dict(
+    kind="list", func="_step1_calculate_debiased_annual_cycle_of_upper_bounds", lean="calculate_debiased_annual_cycle_of_upper_bounds",
+    params={"annual_cycle_obs_hist": LR, "unique_days_of_year_obs_hist": LI, "annual_cycle_cm_hist": LR, "unique_days_of_year_cm_hist": LI,
+            "annual_cycle_cm_future": LR, "unique_days_of_year_cm_future": LI},
+    ret=LR, partial=True, total_div=True)
+_FILTER = "List Rat → Int → List Rat"
+STEP1_CYCLE = dict(
+    kind="list", func="_step1_get_annual_cycle_of_upper_bounds", lean="get_annual_cycle_of_upper_bounds",
+    params={"np_argsort": "List Int → List Nat", "maximum_filter1d_wrap": _FILTER, "uniform_filter1d_wrap": _FILTER,
+            "self_window_length_annual_cycle_of_upper_bounds": INT, "vals": LR, "days_of_year_vals": LI},
+    symbols=("np_argsort", "maximum_filter1d_wrap", "uniform_filter1d_wrap"), ret=(LR, LI), partial=True,
+    extern={
+        # scipy.ndimage.*_filter1d(a, size=…, mode="wrap"): the size is an argument, the mode literal is required
+        "scipy.ndimage.maximum_filter1d": dict(lean="maximum_filter1d_wrap", args=[LR, INT], ret=LR, kwargs={"size": "arg", "mode": "wrap"}),
+        "scipy.ndimage.uniform_filter1d": dict(lean="uniform_filter1d_wrap", args=[LR, INT], ret=LR, kwargs={"size": "arg", "mode": "wrap"}),
+    })
+
+# the wiring of `step1` / `step8`: which series / which cycle goes into which helper (the helpers are the generated
+# definitions above; `day_of_year(time)` is extern, `time` an opaque integer encoding)
+_CYCLE_ARGS = "np_argsort maximum_filter1d_wrap uniform_filter1d_wrap self_window_length_annual_cycle_of_upper_bounds"
+STEP1 = dict(
+    kind="list", func="step1", lean="step1",
+    params={"day_of_year": "List Int → List Int", "np_argsort": "List Int → List Nat", "maximum_filter1d_wrap": _FILTER,
+            "uniform_filter1d_wrap": _FILTER, "self_scale_by_annual_cycle_of_upper_bounds": BOOL,
+            "self_window_length_annual_cycle_of_upper_bounds": INT, "obs_hist": LR, "cm_hist": LR, "cm_future": LR,
+            "time_obs_hist": LI, "time_cm_hist": LI, "time_cm_future": LI},
+    symbols=("day_of_year", "np_argsort", "maximum_filter1d_wrap", "uniform_filter1d_wrap"),
+    ret=(LR, LR, LR, "Option (List Rat)"), partial=True, option_locals={"debiased_annual_cycle": LR},
+    extern={
+        "day_of_year": dict(lean="day_of_year", args=[LI], ret=LI),
+        "self._step1_get_annual_cycle_of_upper_bounds":
+            dict(lean="get_annual_cycle_of_upper_bounds " + _CYCLE_ARGS, args=[LR, LI], ret=(LR, LI), partial=True),
+        "ISIMIP._step1_scale_by_annual_cycle_of_upper_bounds":
+            dict(lean="scale_by_annual_cycle_of_upper_bounds", args=[LR, LI, LR, LI], ret=LR, partial=True),
+        "ISIMIP._step1_calculate_debiased_annual_cycle_of_upper_bounds":
+            dict(lean="calculate_debiased_annual_cycle_of_upper_bounds", args=[LR, LI, LR, LI, LR, LI], ret=LR, partial=True),
+    })
+STEP8 = dict(
+    kind="list", func="step8", lean="step8",
+    params={"day_of_year": "List Int → List Int", "self_scale_by_annual_cycle_of_upper_bounds": BOOL, "cm_future": LR,
+            "debiased_annual_cycle": LR, "time_cm_future": LI},
+    symbols=("day_of_year",), ret=LR, partial=True,
+    extern={
+        "day_of_year": dict(lean="day_of_year", args=[LI], ret=LI),
+        "ISIMIP._step8_rescale_by_annual_cycle_of_upper_bounds":
+            dict(lean="rescale_by_annual_cycle_of_upper_bounds", args=[LR, LI, LR, LI], ret=LR, partial=True),
+    })
+
+SPECS = [STEP5, STEP7, STEP2_MASK, MASK_LOWER, MASK_UPPER, step4("lower"), step4("upper"), STEP3,
+         STEP1_SCALE, STEP8_RESCALE, STEP1_DEBIASED, STEP1_CYCLE, STEP1, STEP8]
 
 
 def generate(repo):
